@@ -209,7 +209,7 @@ func c09Sentinel(c *core.Ctx, rs *types.Named) {
 		}
 		known, registry, notRegistry := false, false, false
 		for _, cd := range facts.CondsAt(ci.Block()) {
-			if call, ok := cd.V.(*ssa.Call); ok && cd.Pos && call.Call.StaticCallee() != nil && call.Call.StaticCallee().Name() == "isKnown" {
+			if call, ok := cd.V.(*ssa.Call); ok && cd.Pos && call.Call.StaticCallee() != nil && fnName(call.Call.StaticCallee()) == "isKnown" {
 				known = true
 			}
 			if eq, ok := strConstCmp(cd, "ResourceType", "registry"); ok {
